@@ -138,7 +138,7 @@ META = {
         "design_ref": "DESIGN.md §4 C02",
     },
     "C13": {
-        "text": "Theorems: a task cancelled while queued is skipped by the worker that takes it - nothing starts, an error result is stored and its waiter registration removed (C13_before_start); requesting a cancel changes nothing but the cancel sets (C13_cancel_frame); skipping changes only that task's result and waiter (C13_skip_frame). Tie: as C11; tasks log when their body starts; `co` (the coroutines that run the tasks): a cancel issued for one coroutine never ends another one. A cancel that finds the task suspended inside its worker settles it when the scheduler drops that worker: result `cancelled` stored, waiter woken (C13_parked_cancel_settles, C13_parked_cancel_unwanted). `rtcancel`: on a started runtime a task is cancelled while it is in progress (spinning, yielding every 200 us, or parked in a hooked sleep); every other task must finish with its own value.",
+        "text": "Theorems: a task cancelled while queued is skipped by the worker that takes it - nothing starts, an error result is stored and its waiter registration removed (C13_before_start); requesting a cancel changes nothing but the cancel sets (C13_cancel_frame); skipping changes only that task's result and waiter (C13_skip_frame). Tie: as C11; tasks log when their body starts; `co` (the coroutines that run the tasks): a cancel issued for one coroutine never ends another one. A cancel that finds the task suspended inside its worker settles it when the scheduler drops that worker: result `cancelled` stored, waiter woken (C13_parked_cancel_settles, C13_parked_cancel_unwanted). `rtcancel`: on a started runtime a task is cancelled while it is in progress (spinning, yielding every 200 us, or parked in a hooked sleep); every other task must finish with its own value. The cancel of a task in progress: for every sequence of requests, switches of the thread between coroutines and arbitrarily late signal deliveries only requested coroutines are ever cancelled (C13_signal_cancels_only_requested); a signal that misses is made good by the cancel set (C13_missed_signal_still_cancels); the pre-fix handler refuted (C13_old_signal_hits_bystander).",
         "note": "Trusted: as C11. The running-task path (signal to the thread that is executing the coroutine, lookup/delivery race) is not exercised: partial.",
         "design_ref": "DESIGN.md §4 C13",
     },
